@@ -266,6 +266,9 @@ func c04BuildAPIBox(r *rand.Rand) ([]byte, string) {
 			f.fill(reflect.ValueOf(b), 0)
 		}
 		typ = b.Type()
+		if _, ok := b.(c04HasChildren); ok || c04EmbedsChildBoxes(b) {
+			typ += "+children"
+		}
 		if b.Size() > 200000 {
 			return
 		}
@@ -279,4 +282,20 @@ func c04BuildAPIBox(r *rand.Rand) ([]byte, string) {
 		return nil, typ
 	}
 	return out, typ
+}
+
+// c04EmbedsChildBoxes: the value carries child boxes in a field of type []mp4.Box (sample entries and trep keep their
+// children that way without offering GetChildren); such a value is container-like, not a leaf.
+func c04EmbedsChildBoxes(b mp4.Box) bool {
+	v := reflect.ValueOf(b)
+	if v.Kind() != reflect.Ptr || v.IsNil() || v.Elem().Kind() != reflect.Struct {
+		return false
+	}
+	v = v.Elem()
+	for i := 0; i < v.NumField(); i++ {
+		if f := v.Field(i); f.Kind() == reflect.Slice && f.Type().Elem() == c04BoxIface && f.Len() > 0 {
+			return true
+		}
+	}
+	return false
 }
